@@ -249,7 +249,7 @@ Definition cfg_ok (c : cfg) : Prop :=
 
 (* the largest allocation one message may cause *)
 Definition msg_bound (c : cfg) : Z :=
-  if cf_ft c then c04_int_max + 1 else Z.max c04_cut_text_limit c04_ext_clip_limit.
+  if cf_ft c then c04_int_max + 1 else Z.max c04_cut_text_limit (Z.max c04_ext_clip_limit c04_ext_cut_msg_limit).
 Definition alloc_bound (c : cfg) : Z :=
   Z.max (msg_bound c) (Z.max c04_sizeof_screen (fb_bytes c)).
 
@@ -420,10 +420,13 @@ Section HandlerProofs.
   Lemma ok_ClientCutText : forall s, eff_ok Q (h_ClientCutText o_inflate c s).
   Proof.
     intro s. unfold h_ClientCutText. eo; try apply ok_ext_provide. szok.
-    - match goal with Hlen : (?len >? c04_cut_text_limit) = false |- _ => remember len as L eqn:EL; clear EL end.
+    - match goal with Hlen : cut_refused ?e ?len = false |- _ =>
+        remember len as L eqn:EL; clear EL; remember e as E eqn:EE; clear EE; unfold cut_refused in Hlen end.
       apply Q_alloc. unfold alloc_bound, msg_bound.
       assert (1 <= c04_cut_text_limit <= c04_int_max) by (vm_compute; split; discriminate).
-      destruct (cf_ft c); destruct (L =? 0) eqn:?; lia.
+      assert (1 <= c04_ext_cut_msg_limit <= c04_int_max) by (vm_compute; split; discriminate).
+      destruct (cf_ft c); destruct (L =? 0) eqn:?; destruct E; cbn [andb] in *;
+        try (destruct (L <=? c04_ext_cut_msg_limit) eqn:?); lia.
     - apply Q_index. lia.
     - apply Q_index.
       match goal with Ht : testbit ?f 0 = true |- _ => pose proof (popcount16_from_bit0 f 16 ltac:(lia) Ht) as Hp end.
@@ -1090,18 +1093,18 @@ Section Summary.
     rewrite Forall_forall in F. destruct (F _ Hin) as [Ha _]. exact Ha.
   Qed.
 
-  (* the bound in figures: 1 MiB of text plus its terminating NUL (2 GiB when file transfer is permitted), or a
+  (* the bound in figures: 1 MiB + 1 KiB of (compressed extended) cut-text message (2 GiB when file transfer is permitted), or a
      (scaled) frame buffer of the configured screen.  The limits themselves are the regenerated constants; this
      lemma is the sanity check that they are still the documented ones (a limit raised in the source breaks it) *)
   Lemma alloc_bound_value : forall c, cfg_ok c ->
-    alloc_bound c <= (if cf_ft c then 2147483648 else 1048577) + fb_bytes c.
+    alloc_bound c <= (if cf_ft c then 2147483648 else 1049600) + fb_bytes c.
   Proof.
     intros c (HW & HH & HB & _). unfold alloc_bound, msg_bound.
     assert (0 <= fb_bytes c).
     { unfold fb_bytes. assert (0 <= cf_bpp c / 8) by (apply Z.div_pos; lia).
       assert (0 <= pad4 (cf_w c * (cf_bpp c / 8))) by (apply pad4_nonneg; nia). nia. }
     assert (c04_int_max + 1 = 2147483648) by reflexivity.
-    assert (Z.max c04_cut_text_limit c04_ext_clip_limit <= 1048577) by (vm_compute; discriminate).
+    assert (Z.max c04_cut_text_limit (Z.max c04_ext_clip_limit c04_ext_cut_msg_limit) <= 1049600) by (vm_compute; discriminate).
     assert (c04_sizeof_screen <= 1048576) by (vm_compute; discriminate).
     destruct (cf_ft c); lia.
   Qed.
@@ -1334,11 +1337,11 @@ Qed.
 
 (* ... and those limits are the fixed, documented ones *)
 Lemma alloc_bound_fixed : forall c, cfg_ok c ->
-  alloc_bound c <= (if cf_ft c then 2147483648 else 1048577) + fb_bytes c /\
-  c04_cut_text_limit <= 2 ^ 20 /\ c04_ext_clip_limit <= 2 ^ 20 + 1.
+  alloc_bound c <= (if cf_ft c then 2147483648 else 1049600) + fb_bytes c /\
+  c04_cut_text_limit <= 2 ^ 20 /\ c04_ext_clip_limit <= 2 ^ 20 + 1 /\ c04_ext_cut_msg_limit <= 2 ^ 20 + 1024.
 Proof.
   intros c Hc. split; [exact (alloc_bound_value corr_q scale_q inflate_none c Hc)|].
-  split; vm_compute; discriminate.
+  repeat split; vm_compute; discriminate.
 Qed.
 
 Lemma scaled_inv_fixed : forall o_corr_f o_scale o_inflate o_pw c fuel r obs s' r' ok,
